@@ -724,9 +724,9 @@ class DFA:
             return True
         return False
 
-    def dfs(self):
+    def dfs(self, extra_roots=()):
         """
-        Construct a dfs-order traversal of the DFA
+        Construct a dfs-order traversal of the DFA (from the starting state, then from any extra roots)
         """
 
         visited = set()
@@ -757,6 +757,8 @@ class DFA:
                     yield from aux(t.target)
 
         yield from aux(self.starting_state)
+        for root in extra_roots:
+            yield from aux(root)
 
     def error_handling_transitions(self, include_states=False):
         """
@@ -5038,7 +5040,9 @@ class DfaCompileCtx:
     def _optimize_remove_inaccessible(self):
         if not ProgramData.do(ProgramFlag.REMOVE_INACCESIBLE_STATES):
             return 0
-        accessible = set(self.dfa.dfs())
+        # the actions run by start() can redirect as well (an append that finds its output full)
+        start_targets = [tgt for action in self.start_actions for tgt in action.get_target_override_targets()]
+        accessible = set(self.dfa.dfs(start_targets))
         mod = 0
         for i in self.dfa.states.copy():
             if i not in accessible:
